@@ -108,6 +108,15 @@ func c13Gen(r *rand.Rand, tier string) []spec.Case {
 			}
 		}
 	}
+	// two clients sharing one SecureConfig (and a hash object that is safe to share) started a few ms apart
+	for _, h := range hashes {
+		for _, cc := range [][]string{{"good", "tampered"}, {"tampered", "good"}, {"good", "good"}, {"good", "tampered", "good"}} {
+			seed := int64(r.Intn(1000))
+			f := file{"script", pick(r, []int{64, 200, 5000})}
+			sum := c13Digest(h, spec.C13File(f.kind, f.size, seed))
+			out = append(out, spec.Case{Kind: "concurrent", P: spec.MustJSON(spec.C13Case{FileKind: f.kind, FileSize: f.size, FileSeed: seed, Hash: h, Variant: "concurrent", Checksum: sum, Concurrent: cc})})
+		}
+	}
 	// a RunnerFunc client with a SecureConfig: go-plugin has no file to hash, whatever the checksum
 	for _, h := range hashes {
 		for _, v := range []string{"exact", "other", "zeros"} {
@@ -145,6 +154,32 @@ func c13Judge(c spec.Case, evs []spec.Event, d *Death) CaseResult {
 		res.Violations = append(res.Violations, Violation{Key: "C13:" + key, Msg: fmt.Sprintf("%s [variant=%s hash=%s file=%s/%d checksumLen=%d] err=%q", msg, p.Variant, p.Hash, p.FileKind, p.FileSize, len(p.Checksum), trunc(o.Err, 150))})
 	}
 	content := spec.C13File(p.FileKind, p.FileSize, p.FileSeed)
+	if len(p.Concurrent) > 0 {
+		res.Class = fmt.Sprintf("concurrent/%s/%v", p.Hash, p.Concurrent)
+		if len(o.Steps) != len(p.Concurrent) {
+			return CaseResult{Verdict: "inconclusive", Inconcl: "not all clients observed", Class: res.Class}
+		}
+		var trace []string
+		for i, st := range p.Concurrent {
+			so := o.Steps[i]
+			body := content
+			if st == "tampered" {
+				body = append(append([]byte(nil), content...), '#', 'x')
+			}
+			match := bytes.Equal(c13Digest(p.Hash, body), p.Checksum)
+			launched := so.Marker || so.ProcessSet
+			trace = append(trace, fmt.Sprintf("%s:launched=%v", st, launched))
+			res.Counters["concurrent_clients"]++
+			switch {
+			case match && !launched:
+				viol("concurrent:not-launched", fmt.Sprintf("client %d of %v (started a few ms apart, one shared SecureConfig): its file hashes to the checksum but was not executed: %s", i, p.Concurrent, trunc(so.Err, 100)))
+			case !match && launched:
+				viol("concurrent:launched-with-wrong-checksum", fmt.Sprintf("client %d of %v (started a few ms apart, one shared SecureConfig): its file does not hash to the checksum but was executed", i, p.Concurrent))
+			}
+		}
+		res.Sample = map[string]any{"variant": "concurrent", "hash": p.Hash, "clients": trace}
+		return res
+	}
 	if p.ViaRunner {
 		res.Counters["runner_cases"]++
 		res.Sample = map[string]any{"variant": p.Variant, "runner_calls": o.RunnerCalls, "launched": o.Marker, "err": trunc(o.Err, 80)}
